@@ -27,7 +27,6 @@ Arguments String.append : simpl never.
 Arguments Z.add : simpl never.
 Arguments range_full : simpl never.
 Arguments range_hit : simpl never.
-Arguments chain_waiting : simpl never.
 Arguments gget : simpl never.
 Arguments mget : simpl never.
 Arguments gset : simpl never.
@@ -72,7 +71,7 @@ Qed.
 
 Ltac lookups :=
   repeat match goal with
-  | |- context [match gget ?k ?g with _ => _ end] => destruct (gget k g) as [[? | ? | ? | ? | ? | ?]|]
+  | |- context [match gget ?k ?g with _ => _ end] => destruct (gget k g) as [[? | ? | ? | ? | | ?]|]
   | |- context [match mget ?k ?g with _ => _ end] => destruct (mget k g) as [[]|]
   | |- context [if range_hit ?p ?l then _ else _] => destruct (range_hit p l)
   | |- context [if range_full ?l then _ else _] => destruct (range_full l)
@@ -175,7 +174,6 @@ Proof.
   intros c c' H; destr_states; unfold ceq in H; cbn in H.
   destruct H as [? [? [? [? ?]]]]; subst.
   unfold m_run_ok, m_runtime_error, m_reset_stack; cbn.
-  match goal with |- context [chain_waiting ?l] => destruct (chain_waiting l) end;
   match goal with |- context [match ?l with [] => _ | _ :: _ => _ end] => destruct l end; cbn;
     repeat split; reflexivity.
 Qed.
@@ -285,8 +283,7 @@ Lemma clean_run_ok : forall c, clean (m_run_ok c).
 Proof. intros c; unfold clean, m_run_ok; destruct c as [? [|f r] ? ? ? ? ?]; cbn; auto. Qed.
 Lemma clean_runtime_error : forall c, clean (m_runtime_error c).
 Proof.
-  intros c; unfold clean, m_runtime_error, m_reset_stack; destruct c as [? [|f r] ? ? ? ? ?]; cbn;
-    match goal with |- context [chain_waiting ?l] => destruct (chain_waiting l) end; cbn; auto.
+  intros c; unfold clean, m_runtime_error, m_reset_stack; destruct c as [? [|f r] ? ? ? ? ?]; cbn; auto.
 Qed.
 Lemma clean_reset : forall c, clean (m_reset c).
 Proof. intros c; unfold clean, m_reset, m_reset_stack; destruct c as [? [|f r] ? ? ? ? ?]; cbn; auto. Qed.
